@@ -238,4 +238,40 @@ theorem Lvl.norm {ty tyP : TypeId} {K L : List Node} {b nd : Nat} {ctx : List No
     simp only [fnormKids_cons, Bool.and_eq_true, Node.norm_elem] at this
     exact ih this.2.1
 
+theorem fsize_zero_of_fnormKids : ∀ (c : List Node), fnormKids c = true → fsize c = 0 → c = []
+  | [], _, _ => rfl
+  | n :: ns, hn, hz => by
+    simp only [fnormKids_cons, Bool.and_eq_true] at hn
+    have := Node.size_pos_of_norm n hn.1
+    simp at hz; omega
+
+/-- `Lvl.outer` with levels to spare: after the descent to `L`, `outer` goes on inside `L` with the rest -/
+theorem Lvl.outer_extra {S : Schema} {ty tyP : TypeId} {K L : List Node} {b nd : Nat}
+    {ctx : List Node → List Node} (sl : Slice) (h : Lvl ty K b nd tyP L ctx) (fP tP e : Nat)
+    (hft : fP ≤ tP) (ht : tP ≤ fsize L) :
+    PM.outer S sl ty K (b + fP) (b + tP) 0 K (b + fP) (b + tP) (nd + e)
+      = (PM.outer S sl tyP L fP tP 0 L fP tP e).map ctx := by
+  induction h with
+  | here ty K =>
+    simp only [Nat.zero_add]
+    cases PM.outer S sl ty K fP tP 0 K fP tP e <;> rfl
+  | @down tyC tyP kidsC L b nd ctx ty pre aC mC ns hp hl ih =>
+    have hr := hl.range
+    have e1 : fsize pre + 1 + b + fP = fsize pre + (1 + b + fP) := by omega
+    have e2 : fsize pre + 1 + b + tP = fsize pre + (1 + b + tP) := by omega
+    rw [e1, e2]
+    have hsc := Flat.outer_scan_pre S sl ty (pre ++ Node.elem tyC aC mC kidsC :: ns)
+      (fsize pre + (1 + b + fP)) (fsize pre + (1 + b + tP)) (nd + 1 + e) pre (Node.elem tyC aC mC kidsC :: ns)
+      0 (1 + b + fP) (1 + b + tP) hp (fun _ => by omega)
+    rw [hsc]
+    conv => lhs; unfold PM.outer
+    rw [if_neg (by omega), if_neg (by simp; omega)]
+    have hc : (decide (nd + 1 + e ≠ 0) && decide (1 + b + tP < (Node.elem tyC aC mC kidsC).size)) = true := by
+      simp; omega
+    simp only [hc, if_true, show 1 + b + fP - 1 = b + fP by omega, show 1 + b + tP - 1 = b + tP by omega,
+      show nd + 1 + e - 1 = nd + e by omega, ih ht]
+    cases PM.outer S sl tyP L fP tP 0 L fP tP e with
+    | error e => rfl
+    | ok X => simp [Except.map]
+
 end PM
